@@ -44,6 +44,16 @@ def parse_time(s):
     return f"{t.hour}:{t.minute}"
 
 
+def aligned_index(s):
+    """slot index 0..47 of a time string that strptime reads as a half-hour-aligned time, in WHATEVER spelling it accepts
+    ("7:00", "0:0", "00:0", full-width digits ...); None for anything else.  The statement speaks about times, not spellings."""
+    p = parse_time(s) if isinstance(s, str) else "x"
+    if p == "x":
+        return None
+    h, m = map(int, p.split(":"))
+    return (h * 60 + m) // 30 if m % 30 == 0 else None
+
+
 def state_token(st):
     return hexs(st.encode()) if isinstance(st, str) else hexs(b"<not-a-str>")
 
@@ -123,6 +133,20 @@ def gen_set_cases(rng, tier):
                 yield dict(cls="odd-time", pattern=bits(p), state=st, start=t, end="23:30", how="set_state")
                 yield dict(cls="odd-time", pattern=bits(p), state=st, start="00:00", end=t, how="set_state")
                 yield dict(cls="odd-time", pattern=bits(p), state=st, start=t, end=t, how="set_state")
+    # every ALIGNED time in every spelling strptime accepts (un-padded hour / minute, other decimal digits), as start and as end,
+    # against the midnight end in all its spellings and against aligned ends in a spelling of their own
+    def spellings(i):
+        h, m = divmod(i * 30, 60)
+        return sorted({f"{h:02d}:{m:02d}", f"{h}:{m}", f"{h:02d}:{m}", f"{h}:{m:02d}", f"{h:02d}:{m:02d}".translate(str.maketrans("0123456789", "０１２３４５６７８９")),
+                       f"{h}:{m}".translate(str.maketrans("0123456789", "٠١٢٣٤٥٦٧٨٩"))})
+    for p in pats[:2]:
+        for i in range(48):
+            for a in spellings(i):
+                for b in spellings(0):
+                    yield dict(cls="aligned-spelling", pattern=bits(p), state=rng.choice(STATES), start=a, end=b, how="set_state")
+                j = rng.randrange(48)
+                yield dict(cls="aligned-spelling", pattern=bits(p), state=rng.choice(STATES), start=a, end=rng.choice(spellings(j)), how="set_state")
+                yield dict(cls="aligned-spelling", pattern=bits(p), state=rng.choice(STATES), start=rng.choice(spellings(j)), end=a, how="set_state")
     # hand-made days of other lengths (outside the statement; the model says IndexError + partial edit)
     for n in list(range(0, 48)) + [49, 50, 56, 96]:
         for _ in range(4 if quick else 40):
@@ -170,9 +194,10 @@ def spec_set(c, after, out):
         return None if out == "ValueError" else "invalid state did not raise ValueError"
     if pa == "x" or pb == "x":
         return None if out == "ValueError" else "unparsable time did not raise ValueError"
-    if a in TIMES and b in TIMES:
-        lo = TIMES.index(a)
-        hi = 47 if b == "00:00" else TIMES.index(b)
+    ia, ib = aligned_index(a), aligned_index(b)
+    if ia is not None and ib is not None:
+        lo = ia
+        hi = 47 if ib == 0 else ib          # an end of 00:00 -- however it is spelled -- means the last slot of the day
         if hi <= lo:
             return None if out == "ValueError" else "end not after start did not raise ValueError"
         if out != "ok":
@@ -202,12 +227,13 @@ def run_set_cases(cases, res):
     # the Lean predicate C18.specSet judges what the implementation did on aligned calls
     jreqs, jidx = [], {}
     for k, (c, (after, out, same)) in enumerate(zip(cases, obs)):
-        if c["start"] in TIMES and c["end"] in TIMES and len(c["pattern"]) == 48 and c["pattern"] != "-":
+        ia, ib = aligned_index(c["start"]), aligned_index(c["end"])
+        if ia is not None and ib is not None and len(c["pattern"]) == 48 and c["pattern"] != "-":
             st = c["state"]
             valid = isinstance(st, str) and st in STATES
             jidx[k] = len(jreqs)
-            jreqs.append(f"s.judgeset {c['pattern']} {int(valid)} {int(valid and st in ON)} {TIMES.index(c['start'])} "
-                         f"{TIMES.index(c['end'])} {int(out == 'ValueError')} {bits(after)}")
+            jreqs.append(f"s.judgeset {c['pattern']} {int(valid)} {int(valid and st in ON)} {ia} "
+                         f"{ib} {int(out == 'ValueError')} {bits(after)}")
     verdicts = driver_batch(jreqs)
     for k, (c, (after, out, same), ans) in enumerate(zip(cases, obs, answers)):
         res.count("set:" + c["cls"])
